@@ -2024,3 +2024,119 @@ class SmoothingEndToEnd(EnumContract):
 
 
 REGISTRY.append(SmoothingEndToEnd())
+
+
+# =======================================================================================
+# C15 through the public API: share of sum with subtotals on both dimensions
+
+
+def gen_sharesum_case(rnd):
+    rd, cd = gen_dim(rnd, "CAT", "a"), gen_dim(rnd, "CAT", "b")
+    for d in (rd, cd):
+        d.pop("doc_order", None)
+    rs = gen_respondents(rnd, [rd, cd], rnd.choice([0, 5, 12, 25]), False)
+    for r in rs:
+        r["v"] = None if rnd.random() < 0.2 else rnd.choice([1, 2, 3, 5, 10])
+    tr = {}
+    for side, d in (("rows_dimension", rd), ("columns_dimension", cd)):
+        ids = [c["id"] for c in d["cats"]]
+        t = {}
+        if rnd.random() < 0.6:
+            ins = []
+            for k in range(rnd.choice([1, 2])):
+                pos = rnd.sample(ids, rnd.choice([1, min(2, len(ids))]))
+                ins.append({"function": "subtotal", "name": "s%d" % k, "anchor": rnd.choice(["top", "bottom"] + ids), "args": pos, "id": k + 1})
+            t["insertions"] = ins
+        if rnd.random() < 0.3:
+            t["order"] = {"type": "explicit", "element_ids": rnd.sample(ids, len(ids))}
+        if rnd.random() < 0.2:
+            t["elements"] = {str(rnd.choice(ids)): {"hide": True}}
+        if t:
+            tr[side] = t
+    return dict(dims=[rd, cd], rs=rs, transforms=tr)
+
+
+class ShareSumEndToEnd(EnumContract):
+    name = "e2e:row / column / total share of sum with subtotals vs respondents (public API)"
+    props = ("C15", "C04")
+    bound = ("CAT x CAT responses carrying a sum measure (cells without a numeric answer unavailable), <= 4 categories per "
+             "dimension, <= 25 respondents, up to 2 subtotals per dimension (no differences), explicit order, hidden element; "
+             "seeded sample")
+    clauses = ("row-share", "column-share", "total-share", "sums", "share-exception")
+
+    def cases(self, cfg, seed, thorough):
+        rnd = random.Random(9400 + seed)
+        for _ in range(2500 if thorough else 300):
+            yield gen_sharesum_case(rnd)
+
+    def check_case(self, case, cfg):
+        import numpy as np
+        import warnings
+        from cr.cube.cube import Cube
+
+        warnings.simplefilter("ignore")
+        dims, rs, tr = case["dims"], case["rs"], case["transforms"]
+        rd, cd = dims
+        R, C = valid_elems(rd), valid_elems(cd)
+        if not R or not C:
+            return []
+        bad = set()
+        try:
+            resp = tabulate(dims, rs, False)
+            nr, nc = len(rd["cats"]), len(cd["cats"])
+            tot = [0.0] * (nr * nc)
+            has = [False] * (nr * nc)
+            for r in rs:
+                if r["v"] is not None:
+                    k = r["a"][0] * nc + r["a"][1]
+                    tot[k] += r["v"]
+                    has[k] = True
+            meta = {"references": {"alias": "num", "name": "num"}, "type": {"class": "numeric"}}
+            resp["result"]["measures"]["sum"] = {"data": [tot[k] if has[k] else {"?": -8} for k in range(nr * nc)], "n_missing": 0, "metadata": meta}
+            p = Cube(resp, transforms=copy.deepcopy(tr) or None, population=1000).partitions[0]
+            ro, co = [int(o) for o in p.row_order()], [int(o) for o in p.column_order()]
+            nan = float("nan")
+            S = np.array([[tot[i * nc + j] if has[i * nc + j] else nan for j in C] for i in R])
+
+            def alive(side, d, V):
+                ids = [d["cats"][i]["id"] for i in V]
+                out = []
+                for one in (tr.get(side) or {}).get("insertions") or []:
+                    if set(one["args"]) & set(ids):
+                        out.append([ids.index(i) for i in ids if i in one["args"]])
+                return out
+
+            r_ins, c_ins = alive("rows_dimension", rd, R), alive("columns_dimension", cd, C)
+
+            def members(o, ins):
+                return [o] if o >= 0 else ins[o + len(ins)]
+
+            # a subtotal's sum is the plain sum of its addends (unavailable -> unavailable)
+            def cell_sum(o_r, o_c):
+                return S[np.ix_(members(o_r, r_ins), members(o_c, c_ins))].sum()
+
+            sums = np.array([[cell_sum(a, b) for b in co] for a in ro]) if ro and co else np.zeros((len(ro), len(co)))
+            with np.errstate(all="ignore"):
+                # "its sum divided by the total of its row / column / the table, every total taken
+                # over base rows and columns only" (unavailable cells skipped in a total)
+                nb_r, nb_c = range(len(R)), range(len(C))
+                row_tot = {a: np.nansum([cell_sum(a, j) for j in nb_c]) for a in ro}
+                col_tot = {b: np.nansum([cell_sum(i, b) for i in nb_r]) for b in co}
+                all_tot = np.nansum(S)
+                exp_row = np.array([[cell_sum(a, b) / row_tot[a] for b in co] for a in ro]) if ro and co else sums
+                exp_col = np.array([[cell_sum(a, b) / col_tot[b] for b in co] for a in ro]) if ro and co else sums
+                exp_tot = sums / all_tot
+            if not close(p.sums, sums, 1e-9):
+                bad.add("sums")
+            if not close(p.row_share_sum, exp_row, 1e-9):
+                bad.add("row-share")
+            if not close(p.column_share_sum, exp_col, 1e-9):
+                bad.add("column-share")
+            if not close(p.total_share_sum, exp_tot, 1e-9):
+                bad.add("total-share")
+        except Exception as e:
+            bad.add("share-exception:%s" % type(e).__name__)
+        return sorted(bad)
+
+
+REGISTRY.append(ShareSumEndToEnd())
